@@ -27,7 +27,7 @@ func vhDispose(storage SlabStorage, s Storable) {
 	}
 }
 
-//vh:prop C01 C05 C09 C06
+//vh:prop C01 C05 C09 C06 C03
 //vh:param leaves 2 3
 //vh:param perleaf 3 5
 func VH_C01_ArrayStep() {
@@ -36,11 +36,13 @@ func VH_C01_ArrayStep() {
 		T = vhRange32("T", 256, 32768)
 	}
 	vhSetThreshold(T)
-	storage := vhNewBasicStorage()
+	logst := &vLogStorage{BasicSlabStorage: vhNewBasicStorage()}
+	storage := logst.BasicSlabStorage
 	addr := vhAddr(1)
 	counts := vhArrayShape()
-	a, model := vhBuildArray(storage, addr, counts)
+	a, model := vhBuildArray(logst, addr, counts)
 	rootID := a.SlabID()
+	snap := vhSnapshotAll(logst)
 	n := len(model)
 	newTag := uint64(7)
 	newSz := vhRange32("newsz", 1, 65536)
@@ -129,9 +131,10 @@ func VH_C01_ArrayStep() {
 		model = vhRemoveModel(model, i)
 	}
 	vhAssert(a.SlabID() == rootID, "root id stable")
+	vhCheckDirtyMarks(logst, snap, "dirty marks")
 	vhCheckArray(a, addr, model, "post")
 	// reopen by root id
-	b, err := NewArrayWithRootID(storage, rootID)
+	b, err := NewArrayWithRootID(logst, rootID)
 	vhAssert(err == nil, "reopen by root id")
 	if err == nil {
 		vhCheckArray(b, addr, model, "reopened")
